@@ -1,0 +1,11 @@
+//go:build verif
+
+package common
+
+import "github.com/makiuchi-d/gozxing/verifhook"
+
+// VerifSnapshot hashes the package-level tables (monitor use only: taken at
+// quiescent points before and after a concurrent workload).
+func VerifSnapshot() uint64 {
+	return verifhook.DeepHash(valueToECI, nameToECI, gridSampler, StringUtils_PLATFORM_DEFAULT_ENCODING, StringUtils_SHIFT_JIS_CHARSET, StringUtils_GB2312_CHARSET, StringUtils_EUC_JP)
+}
